@@ -17,9 +17,10 @@ Documented preconditions respected: constructors and `new_clause` at root level 
 pops to the root level first; the drivers answer `pre`/`notroot` otherwise), `assume` on an
 unassigned literal with an empty queue and `check` on distinct unassigned literals (answered
 `defined`/`pre` by both drivers otherwise), finite coefficients, non-zero coefficients,
-`set_lb/set_ub/set` with a literal that is true and belongs to the current decision level,
-`new_var(lin)` on an expression without basic variables (see findings/nvl-basic.txt; the drivers
-answer `pre:basic` otherwise).
+`set_lb/set_ub/set` with a literal that is true and belongs to the current decision level, followed
+by `prop`.  `new_var(lin)` (`lra.nvl`, alias `lra.nvlraw`) gets arbitrary expressions: basic variables
+and known terms included; 40% of the cases use it the way executor.cpp does (`set_*` on the variable
+it returns, then relations on it).
 
 The generator does not see the answers.  Literals are mostly written `$k` / `!$k` = the literal
 returned by the k-th relation request of the case (its negation), or `?j` / `!?j` = the positive /
@@ -112,13 +113,38 @@ class Gen:
 
     def nvl(self):
         rng = self.rng
-        a = self.a_lin(nterms=rng.choice([1, 2, 2, 3]), const=("0/1" if rng.random() < 0.8 else None), slack_p=0.08)
-        self.L.append(f"lra.nvl {a}")
+        # new_var(lin) on arbitrary expressions: slack variables (basic when created) and, after pivots, basic original
+        # variables inside; a known term in half of them
+        a = self.a_lin(nterms=rng.choice([1, 2, 2, 3]), const=("0/1" if rng.random() < 0.5 else None), slack_p=0.3)
+        self.L.append(f"lra.{'nvl' if rng.random() < 0.9 else 'nvlraw'} {a}")
         self.more += 1
         if rng.random() < 0.7:
             self.rel(rng.choice(["lt", "leq", "eq", "geq", "gt"]), "L1 ^0 1/1 0/1", konst(rng))
             if rng.random() < 0.5:
                 self.rel(rng.choice(["leq", "geq", "lt", "gt"]), a, konst(rng))     # the expression itself: finds the same slack
+
+    def ir(self):
+        rng = self.rng
+        return f"{rat(rng, small=False)},{rng.choice(['0/1', '0/1', '1/1', '-1/1'])}"
+
+    def executor(self):
+        """the executor's pattern, at root level: set_*(new_var(expression), value, reason), then propagate; then
+        relations on that variable and on the variables of the expression"""
+        rng = self.rng
+        self.to_root()
+        a = self.a_lin(nterms=rng.choice([1, 1, 2, 2, 3]), const=(None if rng.random() < 0.7 else "0/1"), slack_p=0.3)
+        self.L.append(f"lra.nvl {a}")
+        self.more += 1
+        self.L.append(f"lra.{rng.choice(['setlb', 'setub', 'set'])} ^0 {self.ir()} -0")
+        self.L.append("prop")
+        for _ in range(rng.choice([1, 1, 2])):
+            r = rng.random()
+            if r < 0.4:
+                self.rel(rng.choice(["lt", "leq", "geq", "gt"]), "L1 ^0 1/1 0/1", konst(rng))
+            elif r < 0.7:
+                self.rel(rng.choice(["lt", "leq", "geq", "gt"]), a, konst(rng))
+            else:
+                self.relation()
 
     def query(self):
         rng = self.rng
@@ -198,27 +224,19 @@ class Gen:
                 self.L.append("prop")
             elif r < 0.92:
                 self.query()
-            elif r < 0.95 and self.setops:
-                if rng.random() < 0.3:
-                    # the executor's pattern: set_*(new_var(expression), value, reason), then propagate; later a relation on that variable
-                    self.to_root()
-                    a = self.a_lin(nterms=rng.choice([1, 1, 2]), const=(None if rng.random() < 0.7 else "0/1"), slack_p=0.0)
-                    self.L.append(f"lra.nvl {a}")
-                    self.more += 1
-                    val = f"{rat(rng, small=False)},{rng.choice(['0/1', '0/1', '1/1', '-1/1'])}"
-                    self.L.append(f"lra.{rng.choice(['setlb', 'setub', 'set'])} ^0 {val} -0")
-                    self.L.append("prop")
-                    self.rel(rng.choice(["lt", "leq", "geq", "gt"]), "L1 ^0 1/1 0/1", konst(rng))
+            elif r < 0.97 and self.setops:
+                q = rng.random()
+                if q < 0.4:
+                    self.executor()
                     continue
-                if rng.random() < 0.5:
+                if q < 0.7:
                     self.to_root()
                     p = "-0"
                 else:
                     p = self.L[-1].split()[1] if self.L[-1].startswith("assume ") else self.lit()
-                val = f"{rat(rng, small=False)},{rng.choice(['0/1', '0/1', '1/1', '-1/1'])}"
-                self.L.append(f"lra.{rng.choice(['setlb', 'setub', 'set'])} {self.var(0.4)} {val} {p}")
+                self.L.append(f"lra.{rng.choice(['setlb', 'setub', 'set'])} {self.var(0.5)} {self.ir()} {p}")
                 self.L.append("prop")      # the caller of set_* propagates before anything else (a pending infeasibility is found by check())
-            elif r < 0.97:
+            elif r < 0.985:
                 # back to the root level for further requests
                 self.to_root()
                 self.requests(rng.randint(1, 3))
@@ -232,7 +250,7 @@ class Gen:
 
 def gen_case(rng, cid, setops=None):
     g = Gen(rng, cid)
-    g.setops = (rng.random() < 0.08) if setops is None else setops
+    g.setops = (rng.random() < 0.4) if setops is None else setops
     g.nv = rng.randint(1, 5)
     g.L += ["lra.nv"] * g.nv
     g.requests(rng.randint(2, 10))                       # A
@@ -243,6 +261,8 @@ def gen_case(rng, cid, setops=None):
         if rng.random() < 0.5:
             g.clauses(units=rng.random() < 0.4)
         g.L.append("prop")
+    if g.setops and rng.random() < 0.6:
+        g.executor()
     g.search(rng.randint(8, 40))                         # D
     return g.L
 
